@@ -135,7 +135,16 @@ let dispatch (op : string) (a : string array) : string =
     let trace = if Array.length a > 6 then Some (parse_trace a.(6)) else None in
     let eci = if a.(5) = "N" then None else Some (n_of_int (int_of_string a.(5))) in
     (match d_encode (nlist a.(0)) (nlist a.(1)) (n_of_int (int_of_string a.(2))) (a.(3) = "1") (a.(4) = "1") eci trace with
-     | Ok ((s, dcw), cw) -> Printf.sprintf "ok %d %s %s" (int_of_n (variant_index s)) (shown dcw) (shown cw)
+     | Ok ((s, dcw), cw) ->
+       let cert =
+         if Array.length a > 7 && String.length a.(7) > 0 && a.(7).[0] = 'K' then
+           (match String.split_on_char ';' (String.sub a.(7) 1 (String.length a.(7) - 1)) with
+            | [p; c; d] ->
+              let prefix = if p = "N" then None else Some (n_of_int (int_of_string p)) in
+              Printf.sprintf " cert=%d" (b2i (d_certify prefix (nlist c) (nlist d)))
+            | _ -> " cert=?")
+         else "" in
+       Printf.sprintf "ok %d %s %s%s" (int_of_n (variant_index s)) (shown dcw) (shown cw) cert
      | Err TooMuchOrIllegalData -> "err TooMuchOrIllegalData" | Err SymbolListEmpty -> "err SymbolListEmpty"
      | Panic PBadOracle -> "bad-oracle" | Panic _ -> "panic")
   | "encode_str" ->
